@@ -81,7 +81,7 @@ class P(ServeProp):
             if names.count(f) > 1:
                 return "duplicate-%s" % f
         req = gs.parse_case(line)["req"]
-        meth = req.split(b" ")[0].strip().upper()
+        meth = httpcanon.request_method(req)      # as the parser sees it (U+2028 or CR before "OPTIONS" is trimmed away)
         cl = httpcanon.header(r, "Content-Length")
         if meth in (b"HEAD", b"OPTIONS"):
             # no body; the 400 for a request that could not be parsed is built without knowing the method and carries its message
